@@ -8,6 +8,13 @@ def check(ctx):
     n2 = filters.check_path_rule(ctx, rep)
     n3 = filters.check_skeleton(ctx, rep)
     n4 = filters.check_operators(ctx, rep)
+    n5 = filters.check_display_separators(ctx, rep)
+    rep.floor("Display separators (Or, And, Path)", n5, 3)
+    n6 = filters.check_whitespace_siblings(ctx, rep)
+    rep.floor("white-space skipping sites in the filter lexer", n6, 4)
+    from rules import recursion
+    n7 = recursion.check_guard_balance(ctx, rep)
+    rep.floor("depth counters", n7, 2)
     rep.floor("node spellings / literal readers checked", n1, 13)
     rep.floor("path must-pass instances", n2, 1)
     rep.floor("parser skeleton functions", n3, 6)
